@@ -136,7 +136,7 @@ def internal_server_error(req, *_):
 
     if req.debug:
         uri = html_escape(req.uri)
-        uri_rule = html_escape(req.uri_rule)
+        uri_rule = html_escape(req.uri_rule or '')
         res.write(
             "  <h2>Response detail</h2>\n"
             f"  remote host: <b><code>{req.remote_host}</code></b><br/>\n"
